@@ -2,7 +2,7 @@
    exp enters as a universally quantified function E with explicit premises
    (E respects ==, E(-t)*E(t) = 1, E > 0); everything else is closed. *)
 From Coq Require Import String ZArith List Bool QArith Lia.
-From HD Require Import Base.Val C06_Model C06_Proofs C06_Proofs_Fold C06_Proofs_E2E.
+From HD Require Import Base.Val C06_Model C06_Proofs C06_Proofs_Fold C06_Proofs_E2E C06_Proofs_Series.
 Import ListNotations.
 Open Scope Z_scope.
 
@@ -338,6 +338,54 @@ Theorem C06_series_is_map_get_frame : forall E fl rsel vsel ymin ymax odt slices
 Proof. reflexivity. Qed.
 Print Assumptions C06_series_is_map_get_frame.
 
+(* get_volume_from_series, slice by slice: the call is accepted iff every instance alone is accepted, and
+   slice k of the volume is then get_frame of instance k alone (its own rescale, window centre / width /
+   function, LUTs, photometric interpretation): no transform is carried over from a neighbouring slice *)
+Theorem C06_series_slicewise : forall E fl rsel vsel ymin ymax odt slices yss,
+  get_series E fl rsel vsel ymin ymax odt slices = Ok yss <->
+  Forall2 (fun s ys => get_frame E (fst s) fl rsel vsel ymin ymax odt [snd s] 0 = Ok ys) slices yss.
+Proof. exact series_slicewise. Qed.
+Print Assumptions C06_series_slicewise.
+
+(* a refused series: exactly when some instance alone is refused; the first one (in slice order) gives the error *)
+Theorem C06_series_error : forall E fl rsel vsel ymin ymax odt slices k,
+  get_series E fl rsel vsel ymin ymax odt slices = Err k <->
+  exists l1 s l2, slices = l1 ++ s :: l2 /\
+                  get_frame E (fst s) fl rsel vsel ymin ymax odt [snd s] 0 = Err k /\
+                  Forall (fun x => exists ys, get_frame E (fst x) fl rsel vsel ymin ymax odt [snd x] 0 = Ok ys) l1.
+Proof. exact series_error. Qed.
+Print Assumptions C06_series_error.
+
+(* neighbour independence: the values an instance gets in the volume depend neither on the other
+   instances of the series nor on its position among them *)
+Theorem C06_series_neighbour_independent : forall E fl rsel vsel ymin ymax odt l1 l2 l1' l2' s yss yss',
+  get_series E fl rsel vsel ymin ymax odt (l1 ++ s :: l2) = Ok yss ->
+  get_series E fl rsel vsel ymin ymax odt (l1' ++ s :: l2') = Ok yss' ->
+  nth_error yss (length l1) = nth_error yss' (length l1') /\
+  nth_error yss (length l1) =
+    (match get_frame E (fst s) fl rsel vsel ymin ymax odt [snd s] 0 with Ok ys => Some ys | Err _ => None end).
+Proof. exact series_neighbour_independent. Qed.
+Print Assumptions C06_series_neighbour_independent.
+
+(* the property sentence for a series (floating point output): every slice of the volume equals - value by
+   value - the stored frame of ITS OWN instance through the stages discovered in THAT instance *)
+Theorem C06_series_staged : forall E, exp_like E ->
+  forall fl rsel vsel ymin ymax odt slices yss,
+  is_float odt = true -> Forall (fun s => d_float_in (fst s) = false) slices ->
+  get_series E fl rsel vsel ymin ymax odt slices = Ok yss ->
+  Forall2 (fun s ys =>
+    exists u fd,
+      gate fl (d_ctype (fst s)) = Ok u /\ (ymin < ymax)%Q /\
+      discover u (f_pres fl) (fst s) rsel vsel 0 = Ok fd /\
+      match fd_rwvm fd with
+      | Some r => Forall2 (rwvm_value r) (snd s) ys
+      | None => fd_guards fd ->
+          Forall2 (fun x y => (y == staged E (stage_mod fd) (stage_voi fd) (fd_invert fd) ymin ymax
+                                           (stored_min (fst s)) (stored_max (fst s)) x)%Q) (snd s) ys
+      end) slices yss.
+Proof. intros E (H1 & H2 & H3). exact (series_staged E H1 H2 H3). Qed.
+Print Assumptions C06_series_staged.
+
 (* without uniformity the reuse is wrong in the code as it is (reported): frame 1's own window ignored *)
 Theorem C06_get_frames_reuse_refuted :
   let fl := Flags TF TN TT true TN TN in
@@ -399,3 +447,13 @@ Example C06_nonvacuous_get_frames :
              map (map Qred) ys = [[1 # 11; 1]; [0; 3 # 11]]%Q.
 Proof. exact get_frames_nonvacuous. Qed.
 Print Assumptions C06_nonvacuous_get_frames.
+
+Example C06_nonvacuous_series :
+  exists y0 y1 y2,
+    get_series E0 ser_fl (SIdx 0) (SIdx 0) 0 1 F64
+      [(ser_slice 40 400 None, [0; 35; 90]); (ser_slice 40 150 None, [0; 35; 90]);
+       (ser_slice 40 150 (Some LinearExact), [0; 35; 90])] = Ok [y0; y1; y2] /\
+    get_frame E0 (ser_slice 40 150 None) ser_fl (SIdx 0) (SIdx 0) 0 1 F64 [[0; 35; 90]] 0 = Ok y1 /\
+    map Qred y0 <> map Qred y1 /\ map Qred y1 <> map Qred y2.
+Proof. exact series_nonvacuous. Qed.
+Print Assumptions C06_nonvacuous_series.
